@@ -72,9 +72,15 @@ class Region:
                                   "std::collections::VecDeque::insert", "std::collections::VecDeque::extend")
 
     def drain_nodes(self):
-        return self.nodes_calling("std::collections::VecDeque::drain", "std::collections::VecDeque::pop_front",
-                                  "std::collections::VecDeque::pop_back", "std::collections::VecDeque::truncate",
-                                  "std::collections::VecDeque::remove", "std::collections::VecDeque::split_off")
+        """nodes where chunks leave the window's queue (the 'progress' points of the sender)"""
+        out = set(self.nodes_calling("std::collections::VecDeque::drain", "std::collections::VecDeque::pop_front",
+                                     "std::collections::VecDeque::pop_back", "std::collections::VecDeque::truncate",
+                                     "std::collections::VecDeque::remove", "std::collections::VecDeque::split_off"))
+        # ... and the call sites of Window::remove through which they are reached
+        for e in self.events:
+            if e.inlined and strip_generics(e.callee) == WINDOW + "::remove":
+                out.add(e.node)
+        return sorted(out, key=repr)
 
     def clear_nodes(self):
         return self.nodes_calling("std::collections::VecDeque::clear")
